@@ -2,6 +2,7 @@ import TomlVerif.Driver.C10
 import TomlVerif.Driver.C12
 import TomlVerif.Driver.C11
 import TomlVerif.Driver.Canon
+import TomlVerif.Driver.Stack
 
 open TomlVerif
 
@@ -12,6 +13,7 @@ def dispatch (mode : String) (line : String) : String :=
   | "c11" => Driver.c11 line
   | "doc" => Driver.docLine line
   | "val" => Driver.valLine line
+  | "stack" => Driver.stackLine line
   | _ => "bad-mode"
 
 partial def loop (mode : String) (h : IO.FS.Stream) (out : IO.FS.Stream) : IO Unit := do
